@@ -8,6 +8,7 @@ import (
 	"context"
 	"errors"
 	"fmt"
+	"github.com/ipld/go-ipld-prime/traversal"
 	"io"
 	"sort"
 	"sync"
@@ -29,10 +30,11 @@ const (
 	NotFound      ErrKind = iota + 1 // implements NotFound() bool
 	IOError                          // opaque
 	UnexpectedEOF                    // io.ErrUnexpectedEOF, unwrapped (a short read of the block)
+	SkipMe                           // traversal.SkipMe{}: go-ipld-prime's "block not on hand, leave it out" answer of a storage opener
 )
 
 // AllKinds lists the load-error kinds the fault checks inject.
-var AllKinds = []ErrKind{NotFound, IOError, UnexpectedEOF}
+var AllKinds = []ErrKind{NotFound, IOError, UnexpectedEOF, SkipMe}
 
 type notFoundErr struct{ c cid.Cid }
 
@@ -59,6 +61,10 @@ func IsInjected(err error) bool {
 	if errors.Is(err, ErrIO) || errors.As(err, &nf) || errors.Is(err, ErrWrite) || errors.Is(err, io.ErrUnexpectedEOF) {
 		return true
 	}
+	var sk traversal.SkipMe
+	if errors.As(err, &sk) {
+		return true
+	}
 	s := err.Error()
 	return bytes.Contains([]byte(s), []byte("verif: "))
 }
@@ -69,6 +75,8 @@ func MakeErr(k ErrKind, c cid.Cid) error {
 		return notFoundErr{c}
 	case UnexpectedEOF:
 		return io.ErrUnexpectedEOF
+	case SkipMe:
+		return traversal.SkipMe{}
 	}
 	return fmt.Errorf("%w (%s)", ErrIO, c)
 }
